@@ -197,6 +197,7 @@ pub fn catalogue() -> Vec<Deviation> {
             d.args.push(ArgSpec::flag("y", Some('y'), Some("yank")));
             sub(c).subs.push(d);
         }),
+        dev!("sub_flatten_help", |c| { sub(c).set(Setting::FlattenHelp); }),
         dev!("sub_required_opt", |c| {
             let mut r = ArgSpec::opt("req", Some('r'), Some("req"));
             r.required = true;
